@@ -115,10 +115,17 @@ SMarkerCas(s) ==
        ELSE UNCHANGED adm /\ spc' = [spc EXCEPT ![s] = "ret"]
   /\ UNCHANGED <<status, q, rxClosed, sk, sprev, seen, sres, dpc, handled, cexit, hvars>>
 
-\* return to the caller (after enqueuing the marker when this sender won the marker CAS)
+\* the winner of the marker CAS enqueues the marker (a step of its own: the consumer can see the
+\* marker before the winner's call has returned)
+SMarkerEnq(s) ==
+  /\ spc[s] = "markerEnq"
+  /\ q' = IF ~rxClosed THEN Append(q, DrainItem) ELSE q
+  /\ spc' = [spc EXCEPT ![s] = "ret"]
+  /\ UNCHANGED <<status, adm, rxClosed, sk, sprev, seen, sres, dpc, handled, cexit, hvars>>
+\* return to the caller
 SReturn(s) ==
-  /\ spc[s] \in {"ret", "markerEnq"}
-  /\ q' = IF spc[s] = "markerEnq" /\ ~rxClosed THEN Append(q, DrainItem) ELSE q
+  /\ spc[s] = "ret"
+  /\ UNCHANGED q
   /\ spc' = [spc EXCEPT ![s] = "idle"]
   /\ sres' = [sres EXCEPT ![Cur(s)] = sprev[s]]
   /\ endT' = [endT EXCEPT ![Cur(s)] = clock + 1] /\ clock' = clock + 1
@@ -150,9 +157,14 @@ DMarkerCas(d) ==
        THEN /\ adm = seen[d] /\ adm' = [adm EXCEPT !.marker = TRUE] /\ dpc' = [dpc EXCEPT ![d] = "markerEnq"]
        ELSE UNCHANGED adm /\ dpc' = [dpc EXCEPT ![d] = "ret"]
   /\ UNCHANGED <<status, q, rxClosed, spc, sk, sprev, seen, sres, handled, cexit, hvars>>
+DMarkerEnq(d) ==
+  /\ dpc[d] = "markerEnq"
+  /\ q' = IF ~rxClosed THEN Append(q, DrainItem) ELSE q
+  /\ dpc' = [dpc EXCEPT ![d] = "ret"]
+  /\ UNCHANGED <<status, adm, rxClosed, spc, sk, sprev, seen, sres, handled, cexit, hvars>>
 DReturn(d) ==
-  /\ dpc[d] \in {"ret", "markerEnq"}
-  /\ q' = IF dpc[d] = "markerEnq" /\ ~rxClosed THEN Append(q, DrainItem) ELSE q
+  /\ dpc[d] = "ret"
+  /\ UNCHANGED q
   /\ dpc' = [dpc EXCEPT ![d] = "done"]
   /\ drainRet' = (IF drainRet = 0 THEN clock + 1 ELSE drainRet) /\ clock' = clock + 1
   /\ UNCHANGED <<status, adm, rxClosed, spc, sk, sprev, seen, sres, handled, cexit, beginT, endT>>
@@ -184,8 +196,8 @@ CDropPorts ==
   /\ UNCHANGED <<status, adm, spc, sk, sprev, seen, sres, dpc, handled, cexit, hvars>>
 
 SenderStep(s) == \/ SBegin(s) \/ SStatus(s) \/ SAdmLoad(s) \/ SAdmRetry(s) \/ SAdmit(s) \/ SEnqueue(s) \/ SRelease(s)
-                 \/ SMarkerLoad(s) \/ SMarkerRetry(s) \/ SMarkerCas(s) \/ SReturn(s)
-DrainerStep(d) == DBegin(d) \/ DClose(d) \/ DStatus(d) \/ DMarkerLoad(d) \/ DMarkerRetry(d) \/ DMarkerCas(d) \/ DReturn(d)
+                 \/ SMarkerLoad(s) \/ SMarkerRetry(s) \/ SMarkerCas(s) \/ SMarkerEnq(s) \/ SReturn(s)
+DrainerStep(d) == DBegin(d) \/ DClose(d) \/ DStatus(d) \/ DMarkerLoad(d) \/ DMarkerRetry(d) \/ DMarkerCas(d) \/ DMarkerEnq(d) \/ DReturn(d)
 ConsumerStep == Consume \/ ConsumeDrain \/ ConsumerQuit \/ CDropPorts \/ (\E v \in {Stopping, Stopped} : CStatus(v))
 
 Next == (\E s \in Senders : SenderStep(s)) \/ (\E d \in Drainers : DrainerStep(d)) \/ ConsumerStep
